@@ -515,6 +515,14 @@ Definition site_table : list site := [
   St "utils.py" "process_name" "eq" "{'_'}" SkMember ""
 ].
 
+(* Rows whose sink the scan's intra-procedural data-flow cannot derive (the value escapes the function): the
+   DOWNSTREAM expression that erases the order.  The scan must find it, verbatim, in the named function. *)
+Definition downstream : list ((string * string * string * string) * (string * string * string)) := [
+  (("client_generators/result_types.py", "ResultTypesGenerator._get_typename_values", "iter:list",
+    "set(possible_types_names) - set(types_names)"),
+   ("client_generators/result_fields.py", "generate_typename_annotation", "sorted(typename_values)"))
+].
+
 (* ------------------------------------------------------------------ sexp interface *)
 Definition dStrs (e : sexp) : option (list string) := dList dStr e.
 Definition dNats (e : sexp) : option (list nat) := dList dNat e.
@@ -572,6 +580,9 @@ Definition run_nondet (e : sexp) : sexp :=
                     L [L (map (fun p => L [A (fst p); sStrs (snd p)]) imps); sStrs moved] :: go r st'
                 end) h s0)
       | _, _ => sErr "procstate" end
+  | L [A "downstream"] =>
+      L (map (fun d => let '((f, fn, c, e), (f2, fn2, e2)) := d in
+                       L [L [A f; A fn; A c; A e]; L [A f2; A fn2; A e2]]) downstream)
   | L [A "sites"] =>
       L (map (fun s => L [A (s_file s); A (s_fn s); A (s_ctx s); A (s_expr s); A (sink_name (s_sink s));
                           sB (order_sensitive (s_sink s) || env_sensitive (s_sink s) || history_sensitive (s_sink s)); A (s_note s)]) site_table)
